@@ -710,6 +710,11 @@ var c03Catalogue = func() []c03Cat {
 				extra[i] = 0xa0 // C2 85 and C2 A0 are white space and would be stripped
 			}
 		}
+		// ... and no three of them may spell a white-space rune either (E2 80 85 is U+2005): whatever the reader's
+		// trimming would strip from either end of the surplus is replaced
+		for len(bytes.TrimSpace(extra)) != len(extra) || len(bytes.TrimSpace(append([]byte("I"), extra...))) != len(extra)+1 || len(bytes.TrimSpace(append(append([]byte(nil), extra...), 'I'))) != len(extra)+1 {
+			extra[rng.Intn(len(extra))] = 0xff
+		}
 		q := strings.Repeat("I", l)
 		switch rng.Intn(3) {
 		case 0:
